@@ -768,19 +768,63 @@ def addDeposit (s : State) (pid : Nat) (who : Addr) (amt : Nat) : Except String 
     if getBal s.bal who < amt then .error "err:funds" else
     .ok (depositRun s p who amt)
 
-/-- `MsgSubmitProposal` -/
+/-- locals of the SDK's `SubmitProposal`: the store, `proposalID`, `submitTime`, `depositPeriod`, the new proposal, the error
+returned so far -/
+structure SubmitLocals where
+  s : State
+  id : Nat := 0
+  submitTime : Nat := 0
+  depositPeriod : Nat := 0
+  p : Option Proposal := none
+  err : Option String := none
+
+/-- the checks of the SDK's loop over the proposal messages that the model keeps in the one bit `Msg.wellFormed`
+(`ValidateBasic`, exactly one signer, that signer is the gov account, a handler is routed, the dry run of a legacy content):
+all of them are in the regenerated loop body -/
+def submitLoopChecks : Bool :=
+  sdkSubmitLoop.contains "validateBasic" && sdkSubmitLoop.contains "oneSigner" && sdkSubmitLoop.contains "signerIsGov" &&
+  sdkSubmitLoop.contains "routable" && sdkSubmitLoop.contains "legacyDryRun"
+
+/-- one top-level statement of the SDK's `SubmitProposal`, by its regenerated tag -/
+def submitStepI (proposer : Addr) (msgs : List Msg) (expedited : Bool) (l : SubmitLocals) (tag : String) : SubmitLocals :=
+  if l.err.isSome then l else
+  if tag == "msgLoop" then
+    (if submitLoopChecks && !msgs.all (·.wellFormed) then { l with err := some "err:msg" } else l)
+  else if tag == "nextId" then { l with id := l.s.nextId, s := { l.s with nextId := l.s.nextId + 1 } }
+  else if tag == "submitTime=blockTime" then { l with submitTime := l.s.time }
+  else if tag == "depositPeriod=maxDepositPeriod" then { l with depositPeriod := l.s.params.maxDepositPeriod }
+  else if tag == "newProposal(depositEnd=submitTime+depositPeriod)" then
+    { l with p := some { id := l.id, msgs := msgs, proposer := proposer, status := .deposit, total := 0,
+                         depositEnd := l.submitTime + l.depositPeriod, votingStart := 0, votingEnd := 0,
+                         expedited := expedited } }
+  else if tag == "setProposal" then
+    (match l.p with
+     | some p => { l with s := { l.s with props := l.s.props ++ [p] } }
+     | none => l)
+  else if tag == "inactiveQueueSet:depositEnd" then
+    (match l.p with
+     | some p => { l with s := { l.s with inactive := insertQ (p.depositEnd, p.id) l.s.inactive } }
+     | none => l)
+  else l
+
+/-- `Keeper.SubmitProposal` of the SDK, statement by statement in SOURCE ORDER (`sdkSubmitSteps` is regenerated from the module
+cache on every run): the new store and the id of the stored proposal -/
+def sdkSubmitRun (s : State) (proposer : Addr) (msgs : List Msg) (expedited : Bool) : Except String (State × Nat) :=
+  let l := sdkSubmitSteps.foldl (submitStepI proposer msgs expedited) { s := s }
+  match l.err with
+  | some e => .error e
+  | none => .ok (l.s, l.id)
+
+/-- `MsgSubmitProposal` (fx message server): one type, the initial deposit against the scaled minimum, then the SDK's
+`SubmitProposal`, then `AddDeposit` of the initial deposit -/
 def submit (s : State) (proposer : Addr) (msgs : List Msg) (initial : Nat) (expedited : Bool) : Except String State :=
   if !checkMsgs msgs then .error "err:type" else
   if s.params.minInitialDepositRatio != 0 &&
       (initial == 0 || initial < mulRound (defaultMin s expedited) s.params.minInitialDepositRatio) then
     .error "err:small" else
-  if !msgs.all (·.wellFormed) then .error "err:msg" else
-  let p : Proposal := { id := s.nextId, msgs := msgs, proposer := proposer, status := .deposit, total := 0,
-                        depositEnd := s.time + s.params.maxDepositPeriod, votingStart := 0, votingEnd := 0,
-                        expedited := expedited }
-  let s1 := { s with nextId := s.nextId + 1, props := s.props ++ [p],
-                     inactive := insertQ (p.depositEnd, p.id) s.inactive }
-  addDeposit s1 p.id proposer initial
+  match sdkSubmitRun s proposer msgs expedited with
+  | .error e => .error e
+  | .ok (s1, id) => addDeposit s1 id proposer initial
 
 /-- `MsgDeposit` -/
 def deposit (s : State) (pid : Nat) (who : Addr) (amt : Nat) : Except String State :=
@@ -1019,10 +1063,9 @@ def burnRun (pid : Nat) (s : State) : Except Err State :=
 def dropInactive (pid : Nat) (s : State) : Except Err State :=
   match findProp s.props pid with
   | none => .error (.halt "inactive queue: proposal not found")
-  | some p =>
-    let s1 := { s with props := dropProp s.props pid,
-                       inactive := removeQ (p.depositEnd, pid) s.inactive,
-                       active := removeQ (p.votingEnd, pid) s.active }
+  | some _ =>
+    -- `keeper.DeleteProposal(ctx, proposal.Id)`: the SDK function, statement by statement
+    let s1 := deleteProposalRun pid s
     if inactiveSettleShapeOk then
       if !s.params.burnPrevote then refundRun pid s1 else burnRun pid s1
     else .ok s1
@@ -1095,13 +1138,27 @@ def endBlock (stk : Staking) (s : State) : Except Err State :=
   | .error e => .error e
   | .ok s1 => runAll (tallyOne stk) (dueIds s1.active s1.time) s1
 
-/-- `MsgVote` / `MsgVoteWeighted` (SDK): validation of the options, then `AddVote` -/
+/-- one top-level statement of the SDK's `AddVote`: (store, `inVotingPeriod`, error) -/
+def addVoteStep (pid : Nat) (voter : Addr) (opts : List (Opt × Nat)) (acc : State × Bool × Option String) (tag : String) :
+    State × Bool × Option String :=
+  let (s, inVoting, err) := acc
+  if err.isSome then acc else
+  if tag == "inVotingPeriod=VotingPeriodProposals.Has" then
+    -- the `VotingPeriodProposals` index holds exactly the ids of the proposals stored with status voting (`SetProposal`)
+    (s, (match findProp s.props pid with | some p => p.status == .voting | none => false), err)
+  else if tag == "rejectUnlessVoting" then (if !inVoting then (s, inVoting, some "err:inactive") else acc)
+  else if tag == "votesSet" then ({ s with votes := setVote s.votes ⟨pid, voter, opts⟩ }, inVoting, err)
+  else acc
+
+/-- `Keeper.AddVote` of the SDK, statement by statement in source order -/
+def addVoteRun (s : State) (pid : Nat) (voter : Addr) (opts : List (Opt × Nat)) : Except String State :=
+  match sdkAddVoteSteps.foldl (addVoteStep pid voter opts) (s, false, none) with
+  | (_, _, some e) => .error e
+  | (s', _, none) => .ok s'
+
+/-- `MsgVote` / `MsgVoteWeighted` (SDK message server): validation of the options, then `AddVote` -/
 def vote (s : State) (pid : Nat) (voter : Addr) (opts : List (Opt × Nat)) : Except String State :=
-  if !optsValid opts then .error "err:vote" else
-  match findProp s.props pid with
-  | none => .error "err:inactive"
-  | some p =>
-    if p.status == .voting then .ok { s with votes := setVote s.votes ⟨pid, voter, opts⟩ } else .error "err:inactive"
+  if !optsValid opts then .error "err:vote" else addVoteRun s pid voter opts
 
 /-! ## operations -/
 
